@@ -66,6 +66,7 @@ CANARIES = {
         ("change-through-custom-properties", "stix2/versioning.py", "text", ["        changed_properties.update(kwargs[\"custom_properties\"])\n", "        pass\n"], "C05.unmodifiable"),
         ("custom-properties-change-loses-to-old-value", "stix2/versioning.py", "text", ["                new_obj_inner.pop(prop, None)\n", "                pass\n"], "C05.pipeline"),
         ("detected-version-not-handed-back", "stix2/versioning.py", "text", ["    return is_versionable, stix_version\n", "    return is_versionable, None\n"], "C05.granularity"),
+        ("modified-through-custom-properties-unchecked", "stix2/versioning.py", "text", ["            kwargs.setdefault(\n                \"modified\", kwargs[\"custom_properties\"][\"modified\"],\n            )\n", "            pass\n"], "C05.pipeline"),
     ],
     "C06": [
         ("contributing-name-lost", "stix2/v21/observables.py", "drop-list-element", ["'serial_number'"], "C06.table"),
